@@ -46,14 +46,20 @@ struct Recorded {
     arcs: BTreeMap<ArcKey, usize>,
     created: BTreeSet<String>,
     expected_visible: BTreeSet<String>,
+    /// nodes pruned thanks to the (warm) cache: regular nodes of their layer, drawn whatever show_deleted says
+    cache_pruned: usize,
 }
-fn recorded(root: &St, log: &[(u32, Ev<St>)]) -> Recorded {
+fn recorded(root: &St, root_value: isize, log: &[(u32, Ev<St>)]) -> Recorded {
     let dbg = |s: &St| format!("{:?}", s);
     let mut arcs: BTreeMap<ArcKey, usize> = BTreeMap::new();
     let mut created = BTreeSet::new();
     let mut visible = BTreeSet::new();
     created.insert(dbg(root));
     visible.insert(dbg(root));
+    // longest path value of every state (meaningful when a state identifies a node: depth-embedding states)
+    let mut vt: BTreeMap<String, isize> = BTreeMap::new();
+    vt.insert(dbg(root), root_value);
+    let mut cache_pruned = 0;
     let mut last_nextvar_states: Vec<St> = vec![];
     let mut last_ret: Option<usize> = None;
     for (_, e) in log {
@@ -63,9 +69,27 @@ fn recorded(root: &St, log: &[(u32, Ev<St>)]) -> Recorded {
             }
             Ev::Cost { src, dst, d, ret } => {
                 *arcs.entry((dbg(src), d.variable.id(), d.value, dbg(dst), *ret)).or_insert(0) += 1;
+                if let Some(v) = vt.get(&dbg(src)).copied() {
+                    let e = vt.entry(dbg(dst)).or_insert(isize::MIN);
+                    *e = (*e).max(v.saturating_add(*ret));
+                }
             }
             Ev::Relax { src, merged, d, ret, .. } => {
                 *arcs.entry((dbg(src), d.variable.id(), d.value, dbg(merged), *ret)).or_insert(0) += 1;
+                if let Some(v) = vt.get(&dbg(src)).copied() {
+                    let e = vt.entry(dbg(merged)).or_insert(isize::MIN);
+                    *e = (*e).max(v.saturating_add(*ret));
+                }
+            }
+            Ev::CacheGet { state, ret: Some(th), .. } => {
+                // the diagrams keep a node whose value is strictly above the threshold and prune (but keep
+                // drawing) the others; the cache is consulted once per node, when its layer is complete
+                if let Some(v) = vt.get(&dbg(state)) {
+                    if *v <= th.value {
+                        visible.insert(dbg(state));
+                        cache_pruned += 1;
+                    }
+                }
             }
             Ev::Merge { out, .. } => {
                 created.insert(dbg(out));
@@ -85,7 +109,7 @@ fn recorded(root: &St, log: &[(u32, Ev<St>)]) -> Recorded {
             visible.insert(dbg(s));
         }
     }
-    Recorded { arcs, created, expected_visible: visible }
+    Recorded { arcs, created, expected_visible: visible, cache_pruned }
 }
 
 struct Parsed {
@@ -165,7 +189,13 @@ pub fn eval(case: &DdCase, obs: &mut CaseObs) -> Verdict {
     }
     obs.evals = 64;
     let root = t.mk_state(sub.depth, 1 << sub.atom);
-    let rec = recorded(&root, &out.log);
+    let rec = recorded(&root, sub.value, &out.log);
+    if case.warm {
+        obs.label("warm-stores");
+    }
+    if rec.cache_pruned > 0 && t.embed_depth && !t.has_irrelevance() {
+        obs.label("node-pruned-by-warm-cache");
+    }
     let mut parsed: BTreeMap<u8, Parsed> = BTreeMap::new();
     for (bits, r) in out.viz.iter() {
         match r {
@@ -240,7 +270,10 @@ pub fn def() -> PropDef {
             // node/arc faithfulness needs labels that identify nodes: depth-embedding states, no long arcs
             let cases = ctx.tier.pick(4_000, 40_000);
             let p = GenParams { n: (1, 6), b: (1, 4), nd: (1, 3), embed: Some(true), allow_irrelevance: false, allow_potential: true };
-            ctx.pt_run("faithful", cases, dd_case_strategy(p, types.clone(), dds.clone()), |c| serde_json::to_value(c).unwrap(), eval);
+            ctx.pt_run("faithful", cases, dd_case_strategy(p.clone(), types.clone(), dds.clone()), |c| serde_json::to_value(c).unwrap(), eval);
+            // the same after other compilations sharing the cache and the dominance store (nodes pruned by a warm cache)
+            let cases = ctx.tier.pick(3_000, 30_000);
+            ctx.pt_run("faithful-warm-stores", cases, dd_case_strategy_warm(p, types.clone(), dds.clone()), |c| serde_json::to_value(c).unwrap(), eval);
             // totality / syntax / terminal on everything else (depth-free states, long arcs)
             let cases = ctx.tier.pick(1_500, 20_000);
             let p = GenParams { n: (1, 6), b: (1, 4), nd: (1, 3), embed: Some(false), allow_irrelevance: true, allow_potential: true };
